@@ -4,11 +4,12 @@
    history of received lines, registrations and unregistrations, s over every client state. *)
 From Coq Require Import List Arith ZArith NArith Bool Lia.
 Import ListNotations.
-Require Import FV.Gen.C12 FV.C12.Model FV.C12.Lemmas.
+Require Import FV.Gen.C12 FV.C12.Model FV.C12.Lemmas FV.C12.ConcModel FV.C12.ConcLemmas.
 
 (* obligations on the facts regenerated from /repo (Gen/C12.v) *)
 Theorem C12_source_facts :
   update_messages_ok = true /\ timestamp_clamped_before_update = true /\ shorthand_lookup_shape = true /\
+  reply_update_precedes_release = true /\ reply_error_not_stored_again = true /\
   update_value_order = true /\ callback_iterates_copy = true /\ internalize_shape = true /\
   error_default_is_InternalError = true /\ array_validate_pads_previous = true /\ predefined_names <> [] /\ error_classes <> [] /\ error_names <> [].
 Proof. repeat split; try reflexivity; discriminate. Qed.
@@ -103,6 +104,98 @@ Proof. intros; apply e2e_write_roundtrip; auto. Qed.
 Theorem C12_e2e_array_exact : forall (A : Type) (prev v : list A), array_validate prev v = v.
 Proof. intros; apply array_validate_exact. Qed.
 
+(* 8. Callers of setParameter / readParameter / getParameter concurrent with the receive thread (ConcModel.v).
+      A step sequence is one schedule of one peer script: every interleaving of the atomic steps of the receive
+      thread (receive+decode / cache update+callbacks+match / set event), the transmissions and the callers.
+      All three theorems quantify over ALL step sequences, clients, import functions, callback behaviours, caller
+      programs and start states.  Until repository commit 276f60f they carried the guard "no caller has executed the
+      cache write of readParameter's fallback" (finding C12/read-error-fallback-overwrites-later-update: the fallback
+      also ran for an error that came from a reply when a later line had replaced the cache entry); the source fact
+      reply_error_not_stored_again ties the model to the repair. *)
+
+(* whenever the receive thread is about to release a caller with a reply, the cache already holds the import of that
+   reply; and from the release until the caller runs the cache entry of that parameter is the import of the reply or
+   of the newest line processed since (the cache mirrors the LAST message) *)
+Theorem C12_reply_cached_before_release : forall C imp W b progs steps,
+  let s := crun C imp W (cinit b progs) steps in
+  (forall i m now, rx s = RSet i m now ->
+     forall k e, decode C imp now (cm_msg m) = OUpd k e -> cache_get k (cache (base s)) = Some e) /\
+  (forall i c m now later, nth_error (cls s) i = Some c -> c_st c = CReleased m now later ->
+     forall k e, decode C imp now (cm_msg m) = OUpd k e ->
+     cache_get k (cache (base s)) = Some (last_write k later e)).
+Proof. intros; apply reply_cached_before_release; auto. Qed.
+
+(* what the released call returns: after reply / changed, and after error_read for a read, the entry made by the
+   receive thread from the answering line (or from a newer line for the same parameter); the caller changes neither
+   cache nor callback lists nor the invocation log (no second update: one round of callbacks per message) *)
+Theorem C12_released_call_sees_its_reply : forall C imp W b progs steps,
+  let s := crun C imp W (cinit b progs) steps in
+  forall i c k m now later e,
+  nth_error (cls s) i = Some c -> c_st c = CReleased m now later -> cur_call c = Some k ->
+  decode C imp now (cm_msg m) = OUpd (k_key k) e -> (is_error_reply m = false \/ k_kind k = RRead) ->
+  cstep_fn C imp W s (SWake i) = finish s i c (OSeen (Some (last_write (k_key k) later e))) (base s) (cls s).
+Proof.
+  intros C imp W b progs steps s i c k m now later e Hn Hs Hc D Hk.
+  pose proof (inv_run C imp W steps (cinit b progs) (inv_init C imp b progs)) as I. fold s in I.
+  eapply wake_sees_reply; eauto.
+Qed.
+
+(* for every schedule the cache, the callback lists and the invocation log are those of the sequential model run over
+   the processed lines in arrival order: theorems 1, 3, 4, 5 above hold for the concurrent client as they stand
+   (every callback exactly once per accepted line, in arrival order; cache = last message) *)
+Theorem C12_conc_is_sequential : forall C imp W b progs steps,
+  let s := crun C imp W (cinit b progs) steps in
+  base s = run C imp W b (done_ops (done s)) /\
+  (stuck s = false -> rev (done s) ++ in_progress (rx s) = arrived steps).
+Proof.
+  intros C imp W b progs steps s. split.
+  - apply conc_is_sequential; auto.
+  - apply done_is_arrival_order.
+Qed.
+
+(* non-vacuity of the concurrent theorems: a write and a read of the same parameter, answered in the opposite order,
+   an update in between; the writer runs only after the answer to the reader was processed *)
+Definition cdemo_key : key := ([109%N], s_target).
+Definition cdemo_ident : str := mk_ident [109%N] s_target.
+Definition cdemo_d : dsc := [([109%N], [{| a_name := s_target; a_cmd := false; a_dt := 0 |}])].
+Definition cdemo_msg (a : action) (p : nat) : cmsg :=
+  {| cm_msg := {| m_action := a; m_ident := Some cdemo_ident;
+                  m_data := DList [{| i_payload := p; i_kind := IKHashable |}; {| i_payload := 9; i_kind := IKDict TAbsent |}] |};
+     cm_other := None |}.
+Definition cdemo_steps : list cstep :=
+  [SSend 0; SSend 1; SRecv (cdemo_msg AChanged 1) 100; SRxUpdate; SRxSet 0;
+   SRecv (cdemo_msg AUpdate 2) 110; SRxUpdate; SRecv (cdemo_msg AReply 3) 120; SRxUpdate; SRxSet 1;
+   SWake 0; SWake 1].
+Example C12_conc_demo :
+  let s := crun (mk_client predefined_names error_classes error_names cdemo_d) (fun _ j => Some j) (fun _ => BOk)
+                (cinit (register (fun _ => BOk) (st0 [0]) KNode CItem 1)
+                       [[{| k_kind := RChange; k_ident := cdemo_ident; k_key := cdemo_key |}];
+                        [{| k_kind := RRead; k_ident := cdemo_ident; k_key := cdemo_key |}]]) cdemo_steps in
+  stuck s = false /\
+  rev (seen s) = [(0, 0, OSeen (Some (Some 3, TFin 120%Z, None))); (1, 0, OSeen (Some (Some 3, TFin 120%Z, None)))] /\
+  rev (log (base s)) = [InvUpd 1 CItem cdemo_key (Some 1, TFin 100%Z, None); InvUpd 1 CItem cdemo_key (Some 2, TFin 110%Z, None);
+                        InvUpd 1 CItem cdemo_key (Some 3, TFin 120%Z, None)].
+Proof. vm_compute. repeat split; reflexivity. Qed.
+
+(* the history of the repaired finding: a read answered by an error report, an update of the same parameter processed
+   before the caller runs: the call returns the newer entry, the cache keeps it, two invocations for two lines *)
+Definition cdemo_err : cmsg :=
+  {| cm_msg := {| m_action := AErrRead; m_ident := Some cdemo_ident;
+                  m_data := DList [{| i_payload := 5; i_kind := IKStr [69%N] None |}; {| i_payload := 6; i_kind := IKStr [120%N] None |};
+                                   {| i_payload := 9; i_kind := IKDict TAbsent |}] |};
+     cm_other := None |}.
+Example C12_conc_demo_error_then_update :
+  let s := crun (mk_client predefined_names error_classes error_names cdemo_d) (fun _ j => Some j) (fun _ => BOk)
+                (cinit (register (fun _ => BOk) (st0 [0]) KNode CItem 1)
+                       [[{| k_kind := RRead; k_ident := cdemo_ident; k_key := cdemo_key |}]])
+                [SSend 0; SRecv cdemo_err 100; SRxUpdate; SRxSet 0; SRecv (cdemo_msg AUpdate 2) 110; SRxUpdate; SWake 0] in
+  stuck s = false /\
+  seen s = [(0, 0, OSeen (Some (Some 2, TFin 110%Z, None)))] /\
+  cache (base s) = [(cdemo_key, (Some 2, TFin 110%Z, None))] /\
+  rev (log (base s)) = [InvUpd 1 CItem cdemo_key (None, TFin 100%Z, Some (s_InternalError, [120%N]));
+                        InvUpd 1 CItem cdemo_key (Some 2, TFin 110%Z, None)].
+Proof. vm_compute. repeat split; reflexivity. Qed.
+
 (* non-vacuity: a history with a one-shot node callback, a failing module callback and a malformed line *)
 Definition demo_d : dsc := [([109%N], [{| a_name := s_value; a_cmd := false; a_dt := 0 |}])].
 Definition demo_val (t : tq) : msg :=
@@ -133,3 +226,6 @@ Print Assumptions C12_malformed_skipped.
 Print Assumptions C12_register_immediate.
 Print Assumptions C12_e2e_write.
 Print Assumptions C12_e2e_array_exact.
+Print Assumptions C12_reply_cached_before_release.
+Print Assumptions C12_released_call_sees_its_reply.
+Print Assumptions C12_conc_is_sequential.
